@@ -100,6 +100,15 @@ def _to_pole(mesh, node, name):
     return m
 
 
+def _triangulated(m, name):
+    """every quad (a, b, c, d) split into (a, b, c), (a, c, d)"""
+    fl = []
+    for f in range(m["n_face"]):
+        c = mg.face_corners(m, f)
+        fl += [c] if len(c) == 3 else [[c[0], c[j], c[j + 1]] for j in range(1, len(c) - 1)]
+    return mg.mk(name, m["lon"], m["lat"], fl, closed=m["closed"])
+
+
 def _meshes(tier, seed):
     rng = random.Random(seed * 104729 + 3)
     closed = mg.closed_meshes(thorough=(tier == "thorough"))
@@ -107,6 +116,10 @@ def _meshes(tier, seed):
     out.append(mg.mk("tetrahedron", *mg.lonlat_of(*np.array([(1, 1, 1), (1, -1, -1), (-1, 1, -1), (-1, -1, 1)], float).T),
                      [[0, 1, 2], [0, 3, 1], [0, 2, 3], [1, 3, 2]], closed=True))
     out[-1] = mg._ccw(out[-1])
+    if tier == "thorough":
+        # very coarse triangulations (3 / 4 nodes round the sphere): face centres up to ~85 degrees of arc from a corner
+        out += [_triangulated(mg.uv_sphere(3, 5), "uv_sphere3x5_triangulated"),
+                _triangulated(mg.uv_sphere(4, 5), "uv_sphere4x5_triangulated")]
     for m in closed[:5] if tier == "quick" else closed:
         out.append(mg.renumber(m, rng))
     for m in (closed[0], closed[2], closed[4]) if tier == "quick" else closed:
@@ -126,10 +139,219 @@ def _meshes(tier, seed):
     return out + partial
 
 
+# ------------------------------------------------------------------------------------------------ locally refined meshes
+# A locally refined region: a node ringed by very small faces (face centres ~1e-3 degrees ~ 2e-5 rad from the node) inside an
+# otherwise coarse mesh.  Two independent constructions:
+#   _refine_at      corner truncation of an existing coarse mesh at one node: every edge at the node gets a new node at angular
+#                   distance r from it, every incident face loses its corner to a tiny triangle (node, new, new)
+#   _graded_cap     a fan of m tiny triangles round an apex, then rings whose radius grows geometrically up to a coarse mesh
+#                   (bands of quads, triangles, or alternating -> ring-node valence 4, 6, 5), closed by an antipodal fan or left open
+_FINE_R_DEG = (1e-3, 5e-4, 2e-3, 2.5e-4)
+_TARGETS = ((40.0, 35.0), (180.0, 23.0), (0.0, 0.0), (-117.0, -48.0), (75.0, -66.0), (-180.0, 51.0), (12.0, 71.0))
+
+
+def _tangent_frame(lon_deg, lat_deg):
+    lo, la = math.radians(lon_deg), math.radians(lat_deg)
+    up = np.array([math.cos(la) * math.cos(lo), math.cos(la) * math.sin(lo), math.sin(la)])
+    east = np.array([-math.sin(lo), math.cos(lo), 0.0])
+    return up, east, np.cross(up, east)
+
+
+def _fine_nodes(m, P=None, ctr=None, within_deg=5e-3):
+    """nodes ringed (>= 3 faces) by very small faces only: every incident face centre within `within_deg` of the node"""
+    P = _P(m) if P is None else P
+    ctr = _centres(m, P) if ctr is None else ctr
+    inc = _incidence(m)
+    lim = math.radians(within_deg)
+    return [n for n in range(m["n_node"]) if len(inc[n]) >= 3 and max(_gc(P[n], ctr[f]) for f in inc[n]) < lim]
+
+
+def _mark(m):
+    m["refined"] = True
+    return m
+
+
+def _renumber_refined(m, rng):
+    return _mark(mg.renumber(m, rng))
+
+
+def _move_node_to(m, node, lon_deg, lat_deg):
+    """rigid rotation that carries `node` to (lon, lat); the node's own coordinates are then set to exactly that position"""
+    p = _P(m)[node]
+    q = _tangent_frame(lon_deg, lat_deg)[0]
+    axis = np.cross(p, q)
+    s = np.linalg.norm(axis)
+    r = dict(m)
+    if s > 1e-9:
+        r = mg.rotate_mesh(m, axis, math.degrees(math.atan2(s, float(p @ q))), m["name"])
+    lon = np.array(r["lon"], float)
+    lat = np.array(r["lat"], float)
+    lon[node], lat[node] = lon_deg, lat_deg
+    r["lon"], r["lat"] = lon, lat
+    return r
+
+
+def _refine_at(mesh, v, r_deg, name):
+    """truncate every face corner at node v (must be ringed by its faces): new nodes at distance r on the edges at v, tiny triangles
+    (new_prev, v, new_next) in place of the corners.  Orientation (counter-clockwise) and conformity are kept."""
+    P = _P(mesh)
+    p = P[v]
+    inc = _incidence(mesh)[v]
+    r = math.radians(r_deg)
+    lon = [float(x) for x in mesh["lon"]]
+    lat = [float(x) for x in mesh["lat"]]
+    new_id = {}
+
+    def w(u):
+        if u not in new_id:
+            t = P[u] - (P[u] @ p) * p
+            t /= np.linalg.norm(t)
+            q = math.cos(r) * p + math.sin(r) * t
+            lo, la = mg.lonlat_of(np.array(q[0]), np.array(q[1]), np.array(q[2]))
+            new_id[u] = len(lon)
+            lon.append(float(lo))
+            lat.append(float(la))
+        return new_id[u]
+    fl = [mg.face_corners(mesh, f) for f in range(mesh["n_face"])]
+    tiny = []
+    for f in inc:
+        c = fl[f]
+        j = c.index(v)
+        a, b = c[j - 1], c[(j + 1) % len(c)]
+        wa, wb = w(a), w(b)
+        fl[f] = c[:j] + [wa, wb] + c[j + 1:]
+        tiny.append([wa, v, wb])
+    return _mark(mg.mk(name, lon, lat, fl + tiny, closed=mesh["closed"]))
+
+
+def _graded_cap(m, r_deg, growth, style, closed, centre, name, phase=0.37):
+    """apex (node 0) + rings of m nodes at colatitudes r, r*growth, ... (< 15 degrees), then coarse rings; faces counter-clockwise"""
+    up, east, north = _tangent_frame(*centre)
+    cols = []
+    c = r_deg
+    while c < 15.0:
+        cols.append(c)
+        c *= growth
+    cols += [40.0, 75.0, 110.0, 145.0] if closed else [32.0]
+    az = [2.0 * math.pi * (i + phase) / m for i in range(m)]
+    pts = [up]
+    for c in cols:
+        cr = math.radians(c)
+        for a in az:
+            pts.append(math.cos(cr) * up + math.sin(cr) * (math.cos(a) * east + math.sin(a) * north))
+    if closed:
+        pts.append(-up)
+    pts = np.array(pts)
+    lon, lat = mg.lonlat_of(pts[:, 0], pts[:, 1], pts[:, 2])
+    ring = lambda j, i: 1 + j * m + (i % m)  # noqa: E731
+    faces = [[0, ring(0, i), ring(0, i + 1)] for i in range(m)]
+    for j in range(len(cols) - 1):
+        tri = style == "tri" or (style == "mixed" and j % 2 == 0)
+        for i in range(m):
+            a, b, c2, d = ring(j, i), ring(j + 1, i), ring(j + 1, i + 1), ring(j, i + 1)
+            faces += [[a, b, c2], [a, c2, d]] if tri else [[a, b, c2, d]]
+    if closed:
+        last = len(pts) - 1
+        faces += [[last, ring(len(cols) - 1, i + 1), ring(len(cols) - 1, i)] for i in range(m)]
+    return _mark(mg.mk(name, lon, lat, faces, closed=closed))
+
+
+def _refinable_nodes(m):
+    """nodes ringed by 3..8 faces, none of which already has 8 corners (truncation adds one corner), every face corner at the node
+    properly convex (interior angle 20..160 degrees: the cut-off triangle is then a proper counter-clockwise triangle)"""
+    inc = _incidence(m)
+    P = _P(m)
+    out = []
+    for n in range(m["n_node"]):
+        if not (3 <= len(inc[n]) <= 8 and _is_ring(m, n, inc[n])):
+            continue
+        ok = True
+        for f in inc[n]:
+            c = mg.face_corners(m, f)
+            j = c.index(n)
+            u1 = P[n] - P[c[j - 1]]
+            u2 = P[c[(j + 1) % len(c)]] - P[n]
+            turn = float(P[n] @ np.cross(u1 / np.linalg.norm(u1), u2 / np.linalg.norm(u2)))
+            ok = ok and len(c) <= 7 and turn > math.sin(math.radians(20.0))
+        if ok:
+            out.append(n)
+    return out
+
+
+def _refined_meshes(tier, seed):
+    rng = random.Random(seed * 7368787 + 29)
+    quick = tier == "quick"
+    out = []
+    k = 0
+
+    def target():
+        nonlocal k
+        k += 1
+        return _TARGETS[k % len(_TARGETS)] if k % 3 else (rng.uniform(-180.0, 180.0), rng.uniform(-70.0, 70.0))
+    # ---- corner truncation of coarse closed meshes (valence 3: cube / dodecahedron, 4: octahedron, 5: icosahedron, 6: uv-sphere fan)
+    closed = mg.closed_meshes(thorough=not quick)
+    for i, base in enumerate(closed):
+        nodes = _refinable_nodes(base)
+        if base["name"].startswith("uv_sphere"):
+            nodes = [n for n in (0,) if n in nodes]         # the fan apex (valence nlon); moved away from the pole below
+        picks = [nodes[rng.randrange(len(nodes))]] if quick else rng.sample(nodes, min(3, len(nodes)))
+        for v in picks:
+            r_deg = _FINE_R_DEG[(i + v) % (2 if quick else len(_FINE_R_DEG))]
+            m = _refine_at(_move_node_to(base, v, *target()), v, r_deg, f"{base['name']}_refined_at_node_r{r_deg:g}deg")
+            out.append(m)
+            if not quick or i % 2 == 0:
+                out.append(_renumber_refined(m, rng))
+    # a refined REGION: two adjacent nodes of one coarse mesh
+    for base in (closed[2],) if quick else (closed[0], closed[2], closed[4]):
+        v = rng.randrange(base["n_node"])
+        c = mg.face_corners(base, _incidence(base)[v][0])
+        nb = c[(c.index(v) + 1) % len(c)]
+        m = _refine_at(_refine_at(_move_node_to(base, v, *target()), v, 1e-3, ""), nb, 1e-3,
+                       f"{base['name']}_refined_at_two_adjacent_nodes")
+        out.append(_renumber_refined(m, rng))
+    # ---- graded caps
+    combos = [(3, "quad", True), (4, "tri", False), (5, "mixed", True), (6, "quad", False)] if quick else \
+        [(m, s, c) for m in (3, 4, 5, 6) for s in ("quad", "tri", "mixed") for c in (True, False)]
+    for i, (m, style, cl) in enumerate(combos):
+        for r_deg in _FINE_R_DEG[:1] if quick else _FINE_R_DEG[:3]:
+            g = _graded_cap(m, r_deg, rng.choice([2.0, 3.0, 4.0]), style, cl, target(),
+                            f"graded_cap_valence{m}_{style}_{'closed' if cl else 'open'}_r{r_deg:g}deg", phase=rng.uniform(0.05, 0.95))
+            out.append(g)
+            out.append(_renumber_refined(g, rng))
+    # ---- corner truncation at an interior node of coarse partial meshes
+    partial = [m for m in mg.small_meshes() + mg.random_meshes(seed * 13 + 7, 20 if quick else 120) if _refinable_nodes(m)]
+    for i, base in enumerate(partial[:4] if quick else partial[:40]):
+        nodes = [n for n in _refinable_nodes(base) if abs(float(base["lat"][n])) <= 80.0]   # away from the geographic poles
+        if not nodes:
+            continue
+        m = _refine_at(base, nodes[rng.randrange(len(nodes))], _FINE_R_DEG[i % 3],
+                       base["name"] + f"_refined_at_node_r{_FINE_R_DEG[i % 3]:g}deg")
+        out.append(m if i % 2 else _renumber_refined(m, rng))
+    return out
+
+
 # ------------------------------------------------------------------------------------------------ the checks
+def _kind(m):
+    return ("closed" if m["closed"] else "partial") + ("_locally_refined" if m.get("refined") else "")
+
+
+def _node_kind(m, n, P, ctr, inc):
+    """scenario of ONE primal node (for the failure key of the row clauses): 'face_centre_beyond_60deg' = a very coarse
+    neighbourhood (some incident face centre more than 60 degrees of arc away), 'locally_refined' = the node touches the refined
+    region of a locally refined mesh (nearest incident face centre within 1 degree); plain otherwise (also the coarse nodes of a
+    locally refined mesh)"""
+    dist = [_gc(P[n], ctr[f]) for f in inc[n]]
+    base = "closed" if m["closed"] else "partial"
+    if max(dist) > math.radians(60.0):
+        return base + "_face_centre_beyond_60deg"
+    if m.get("refined") and min(dist) < math.radians(1.0):
+        return base + "_locally_refined"
+    return base
+
+
 def _check_grid_dual(m, fails, tag):
     """returns (number of clause evaluations, dual grid or None)"""
-    kind = "closed" if m["closed"] else "partial"
+    kind = _kind(m)
     n_case = 0
     P = _P(m)
     ctr = _centres(m, P)
@@ -138,12 +360,17 @@ def _check_grid_dual(m, fails, tag):
     if not expected_nodes:
         return 0, None
     desc = {"mesh": m["name"], "call": tag}
+    fine = set(_fine_nodes(m, P, ctr)) if m.get("refined") else set()
 
     def fail(clause, what, observed=None, expected=None, extra=None):
         d = dict(desc)
         if extra:
             d.update(extra)
-        fails.append({"key": f"{clause}:{tag}:{kind}", "what": what, "violated": clause, "inputs": d, "observed": observed,
+            if m.get("refined") and "primal_node" in extra:
+                d["node_ringed_by_tiny_faces"] = extra["primal_node"] in fine
+                d["lonlat_deg"] = [float(m["lon"][extra["primal_node"]]), float(m["lat"][extra["primal_node"]])]
+        k = _node_kind(m, extra["primal_node"], P, ctr, inc) if extra and "primal_node" in extra else kind
+        fails.append({"key": f"{clause}:{tag}:{k}", "what": what, "violated": clause, "inputs": d, "observed": observed,
                       "expected": expected})
 
     try:
@@ -220,6 +447,8 @@ def _check_grid_dual(m, fails, tag):
 def _check_against_dual_of(m, d, fails):
     """closed meshes: the cyclic corner sequence equals meshgen.dual_of's (independent construction)"""
     o = mg.dual_of(m)
+    P = _P(m)
+    ctr, inc = _centres(m, P), _incidence(m)
     conn = np.asarray(d.face_node_connectivity.values)
     if conn.shape[0] != o["n_face"]:
         return 0
@@ -232,7 +461,7 @@ def _check_against_dual_of(m, d, fails):
             continue        # reported by the set clause already
         j = exp.index(row[0])
         if row != exp[j:] + exp[:j]:
-            fails.append({"key": "cyclic_order_equals_independent_dual:Grid.get_dual:closed",
+            fails.append({"key": "cyclic_order_equals_independent_dual:Grid.get_dual:" + _node_kind(m, k, P, ctr, inc),
                           "what": "cyclic corner order of a dual face differs from the independently constructed dual",
                           "violated": "ordered counter-clockwise", "inputs": {"mesh": m["name"], "primal_node": k},
                           "observed": row, "expected": exp[j:] + exp[:j]})
@@ -301,7 +530,7 @@ def _check_jit_vs_python(m, fails):
     finally:
         dual_mod._order_nodes = saved
     if a.shape != b.shape or not np.array_equal(a, b):
-        fails.append({"key": "jit_and_python_agree:construct_faces:" + ("closed" if m["closed"] else "partial"),
+        fails.append({"key": "jit_and_python_agree:construct_faces:" + _kind(m),
                       "what": "compiled and pure-Python construct_faces give different dual connectivity",
                       "violated": "JIT on and off", "inputs": {"mesh": m["name"]}, "observed": a.tolist()[:4], "expected": b.tolist()[:4]})
     return 1
@@ -311,28 +540,39 @@ def dual(tier, seed):
     rng = random.Random(seed * 2654435761 % (2 ** 31) + 11)
     fails, cases, keys, samples = [], 0, set(), []
     meshes = _meshes(tier, seed)
-    n_closed = n_partial = 0
-    for m in meshes:
+    refined = _refined_meshes(tier, seed)
+    n_closed = n_partial = n_ref_closed = n_ref_partial = n_fine = 0
+    for m in refined:
+        fine = _fine_nodes(m)
+        assert fine, "stand-in bug: a 'locally refined' mesh without a node ringed by tiny faces: " + m["name"]
+        n_fine += len(fine)
+        n_ref_closed += bool(m["closed"])
+        n_ref_partial += not m["closed"]
+    for m in meshes + refined:
         c, d = _check_grid_dual(m, fails, "Grid.get_dual")
         if c == 0:
             continue
         cases += c
         keys.add(m["name"])
         if m["closed"]:
-            n_closed += 1
+            n_closed += not m.get("refined")
             if d is not None:
                 cases += _check_against_dual_of(m, d, fails)
             c2, _ = _check_grid_dual(m, fails, "UxDataArray.get_dual.uxgrid")
             cases += c2
             cases += _check_data(m, fails, rng)
         else:
-            n_partial += 1
+            n_partial += not m.get("refined")
         if m["n_node"] <= 40:
             cases += _check_jit_vs_python(m, fails)
         if len(samples) < 3:
             samples.append({"mesh": m["name"], "n_node": m["n_node"], "n_face": m["n_face"]})
     bound = (f"{n_closed} closed meshes (platonic, uv spheres with pole nodes, cubed sphere, hex/pent duals; renumbered; rotated so that "
-             f"a node sits exactly on a pole / the antimeridian; valence 3..8) and {n_partial} partial meshes with at least one "
+             f"a node sits exactly on a pole / the antimeridian; thorough tier: very coarse triangulated uv spheres; valence 3..8) and {n_partial} partial meshes with at least one "
              f"node of >= 3 faces (small catalogue + seeded random patches); every node of every mesh; data with 0..2 leading dims; "
-             f"JIT on, plus compiled-vs-py_func comparison of construct_faces")
+             f"JIT on, plus compiled-vs-py_func comparison of construct_faces; locally refined meshes (keys *_locally_refined): "
+             f"{n_ref_closed} closed + {n_ref_partial} partial coarse meshes with a refined region away from the geographic poles "
+             f"(corner truncation of platonic / uv / cubed-sphere / random-patch meshes at one or two adjacent nodes, graded caps of "
+             f"quad / triangle / alternating bands with growth 2..4; ring radius 2.5e-4..2e-3 degrees; refined node valence 3..6 (3..8 in the thorough tier); "
+             f"{n_fine} nodes ringed only by faces whose centres are within 5e-3 degrees), same clauses on every node")
     return result(cases, len(keys), fails, bound, samples)
